@@ -155,11 +155,16 @@ Acyclic(L, live) ==
 
 Bare(L, live) == \A x \in DOMAIN L : x \notin live => L[x] = NoLinks
 
+\* C12: no link of a live node leads to a removed slot (or carries an id of an earlier
+\* generation: recorded as a negative number, which is no slot at all)
+NoLinkToRemoved(L, live) == \A x \in live : \A t \in Targets(L, x) : t \in live
+
 \* which of the named clauses fail (for diagnostics of rejected real states)
 FailedClauses(L, live) ==
   (IF LiveTargets(L, live) THEN {} ELSE {"C01:LiveTargets"}) \cup
   (IF LiveTargets(L, live) /\ ~SiblingsMutual(L, live) THEN {"C01:SiblingsMutual"} ELSE {}) \cup
   (IF LiveTargets(L, live) /\ ~ChildChains(L, live) THEN {"C01:ChildChains"} ELSE {}) \cup
   (IF LiveTargets(L, live) /\ ~Acyclic(L, live) THEN {"C02:Acyclic"} ELSE {}) \cup
-  (IF Bare(L, live) THEN {} ELSE {"C12:Bare"})
+  (IF Bare(L, live) THEN {} ELSE {"C12:Bare"}) \cup
+  (IF NoLinkToRemoved(L, live) THEN {} ELSE {"C12:LinkedFromLive"})
 =============================================================================
